@@ -1142,4 +1142,22 @@ theorem genQuery_qu_txt (c : Cache) (h : Hist) (now : Int) (i : Info) (hnil : kn
   rw [addQuestion_qu, hnil]
   simp
 
+theorem addQuestion_of (c : Cache) (h : Hist) (now : Int) (name : String) (ty : Nat) (skip qu : Bool)
+    (hk : ¬ (skip = true ∧ knownAnswers lower c now name ty ≠ []))
+    (hs : qu = true ∨ histSuppresses lower h { name := name, type := ty, class_ := Gen.classIn, unique := qu } now (knownAnswers lower c now name ty) = false) :
+    addQuestion lower c h now name ty skip qu =
+      some ({ name := name, type := ty, class_ := Gen.classIn, unique := qu }, knownAnswers lower c now name ty) := by
+  unfold addQuestion
+  simp only
+  have h1 : ¬ Gen.Lookup.skip_known skip (knownAnswers lower c now name ty).length = true := by
+    rw [skip_known_iff]
+    rintro ⟨a, b⟩
+    exact hk ⟨a, by intro hh; rw [hh] at b; exact b rfl⟩
+  rw [if_neg h1]
+  rcases hs with hq | hsup
+  · rw [if_pos hq]
+  · by_cases hq : qu = true
+    · rw [if_pos hq]
+    · rw [if_neg hq, if_neg (by rw [hsup]; simp)]
+
 end Zc.Lookup
